@@ -405,6 +405,14 @@ impl<'a, H: HB> E3<'a, H> {
                 continue;
             }
             for class in 0..NCLASS {
+                // A panic of the closure unwinds through the live `IterMut` guard, whose destructor
+                // rebuilds the heap. On a queue whose tables an EARLIER caught panic left inconsistent
+                // that rebuild panics too (a checked `unwrap`), and a panic in a destructor during
+                // unwinding makes Rust abort the process: a safe abort, not undefined behaviour, and so
+                // outside what C10 forbids; but it would end the search. Not enumerated as a second fault.
+                if node.faults > 0 && class == C_CLOSURE && matches!(op, Op::IterMutForEach { .. } | Op::IterMutFind { .. }) {
+                    continue;
+                }
                 for j in 0..t0.calls[class] {
                     let fault = Some((class, j));
                     crate::crash::set_case(|| self.case(node, op, fault, String::new()));
